@@ -122,6 +122,13 @@ def cases():
         ("final-assign-nested", "final int k = 1; { if (k == 1) { k = 3; } }", "int k = 1; { if (k == 1) { k = 3; } }"),
         ("final-assign-for-header", "final int k = 0; for (k = 0; k < 1; k = k + 1) { echo(k); }", "int k = 0; for (k = 0; k < 1; k = k + 1) { echo(k); }"),
         ("use-before-declaration", "echo(late); int late = 1;", "int late = 1; echo(late);"),
+        ("use-before-declaration-in-cast", "float fc = (float) late2; int late2 = 1;", "int late2 = 1; float fc = (float) late2;"),
+        ("final-assign-in-cast-operand", "final int k = 1; float fc = (float) (k = 2);", "int k = 1; float fc = (float) (k = 2);"),
+        ("final-assign-in-argument", "final int k = 1; takesInt(k = 2);", "int k = 1; takesInt(k = 2);"),
+        ("final-assign-in-index", "final int k = 0; int[] fa = {1, 2}; echo(fa[k = 1]);", "int k = 0; int[] fa = {1, 2}; echo(fa[k = 1]);"),
+        ("final-increment-in-operand", "final int k = 1; int r = k++ + 1;", "int k = 1; int r = k++ + 1;"),
+        ("undeclared-in-cast", "float fc = (float) ghost2;", "int ghost2 = 1; float fc = (float) ghost2;"),
+        ("private-field-in-cast", "Base pb = new Base(); float fc = (float) pb.priv;", "Base pb = new Base(); float fc = (float) pb.pub;"),
         ("use-in-own-initialiser", "int selfy = selfy + 1;", "int selfy = 1 + 1;"),
         ("undeclared", "ghost = 1;", "int ghost = 1;"),
         ("redeclaration", "int twice = 1; int twice = 2;", "int twice = 1; int once = 2;"),
